@@ -307,7 +307,7 @@ def jobs(tier):
     J = []
     others = ['p2pkh', 'p2wpkh']
     for kind in KINDS:
-        j = Job('sighash_%s' % kind, h_sighash, W=72, setup=setup, budget_s=3000,
+        j = Job('sighash_%s' % kind, h_sighash, W=72, setup=setup, budget_s=3000 if q else 9000,
                 params=dict(kind=kind, other_kinds=others, max_in=2 if q else 3, max_out=2,
                             out_lens=[0, 1, 2, 25] if q else [0, 1, 2, 25, 76, 253],
                             nkeys=3 if q else 4))
